@@ -4,6 +4,9 @@ import json
 SC="stateless model checking of the implementation under a controlled scheduler (iterative preemption/delay bounding)"
 ENUM="bounded-exhaustive enumeration over explicit boundary alphabets, every case executed on the real code and compared with a reference model written from the property statement"
 CHECKS = {
+ "C06": dict(engine="enum", technique=ENUM+" in crash-isolating worker subprocesses",
+   text="38 network-facing entry groups (SOCKS5 address/stream/client-reply parsers, SS-none, HTTP proxy server/client/relay, SS2022 stream server and client incl. malformed headers sealed with the real keys, SS2022 and direct UDP unpackers, DNS parseMsg and Lookup) are fed every string up to length L over each parser's branch constants, every truncation, single (thorough: double) boundary mutation, insertion and deletion of valid seeds; every address a parser yields is pushed through 18 real routers (each criterion representation, incl. source port 0), Abort/Proceed+relay, six outbound request writers and UDP re-packing",
+   note="the quantifier 'all byte strings' is unbounded: decided on the stated finite sub-space (not coverage-guided fuzzing); GeoIP and TLS servers not exercised"),
  "C01": dict(engine="enum", technique=ENUM,
    text="complete sessions of the real SS2022 stream client and server over a scripted in-memory transport for the full configuration matrix (ciphers x identity-header depth 0..3 x prefixes incl. >64 KiB x segmented-header allowance x target kinds), boundary initial-payload lengths, write-size sequences, reader modes (Read with 7 buffer shapes, WriteTo, Read-then-WriteTo), writer modes (Write, ReadFrom), every single structural cut and all handshake cut pairs, transport buffer sizes and chained tunnels through three relay loops; oracle = two reference byte queues",
    note="identity-header depths >1 are checked by emulated relay hops (the repository has no relay-side EIH code); wire chunking and padding length are not demanded"),
